@@ -531,28 +531,26 @@ theorem letters_eq : letters = List.range' 0 52 := by
 
 /-! ### `tensor_merge` -/
 
-theorem mergeLe_total (a b : Nat × Nat) (h : mergeLe a b = false) : mergeLe b a = true := by
+theorem mergeLe_total (a b : Nat × (Nat × Nat)) (h : mergeLe a b = false) :
+    mergeLe b a = true := by
   unfold mergeLe at *
-  simp only [Bool.or_eq_false_iff, Bool.and_eq_false_iff, decide_eq_false_iff_not, beq_eq_false_iff_ne,
-    Bool.or_eq_true, Bool.and_eq_true, decide_eq_true_eq, beq_iff_eq] at *
+  simp only [Bool.or_eq_false_iff, Bool.and_eq_false_iff, decide_eq_false_iff_not,
+    beq_eq_false_iff_ne, Bool.or_eq_true, Bool.and_eq_true, decide_eq_true_eq, beq_iff_eq] at *
   omega
 
-theorem mergeLe_trans (a b c : Nat × Nat) (h1 : mergeLe a b = true) (h2 : mergeLe b c = true) :
-    mergeLe a c = true := by
+theorem mergeLe_trans (a b c : Nat × (Nat × Nat)) (h1 : mergeLe a b = true)
+    (h2 : mergeLe b c = true) : mergeLe a c = true := by
   unfold mergeLe at *
   simp only [Bool.or_eq_true, Bool.and_eq_true, decide_eq_true_eq, beq_iff_eq] at *
   omega
 
-theorem mergeLe_pos (a b : Nat × Nat) (h : mergeLe a b = true) : a.1 ≤ b.1 := by
+theorem mergeLe_pos (a b : Nat × (Nat × Nat)) (h : mergeLe a b = true) : a.1 ≤ b.1 := by
   unfold mergeLe at h
   simp only [Bool.or_eq_true, Bool.and_eq_true, decide_eq_true_eq, beq_iff_eq] at h
   omega
 
-theorem sorted_stableSort_mergeLe (l : List (Nat × Nat)) : SortedPos (stableSort mergeLe l) :=
-  (pairwise_stableSort mergeLe_total mergeLe_trans l).imp (fun {a b} h => mergeLe_pos a b h)
-
-theorem pairwise_zip_snd {R : Nat → Nat → Prop} (np part : List Nat) (h : part.Pairwise R) :
-    (np.zip part).Pairwise (fun x y => R x.2 y.2) := by
+theorem pairwise_zip_snd {β γ : Type} {R : γ → γ → Prop} (np : List β) (part : List γ)
+    (h : part.Pairwise R) : (np.zip part).Pairwise (fun x y => R x.2 y.2) := by
   induction np generalizing part with
   | nil => simp
   | cons p ps ih =>
@@ -565,22 +563,8 @@ theorem pairwise_zip_snd {R : Nat → Nat → Prop} (np part : List Nat) (h : pa
       rintro ⟨q, e⟩ hy
       exact h.1 e (List.of_mem_zip hy).2
 
-/-- when the letter codes increase along the list, sorting the `(position, letter)` tuples keeps
-the letters of equal position in list order -/
-theorem filter_stableSort_mergeLe (k : Nat) (np part : List Nat)
-    (h : part.Pairwise (fun a b => letterCode a < letterCode b)) :
-    (stableSort mergeLe (np.zip part)).filter (fun z => z.1 == k)
-      = (np.zip part).filter (fun z => z.1 == k) := by
-  apply filter_stableSort
-  refine (pairwise_zip_snd np part h).imp ?_
-  intro x y hxy hle
-  unfold mergeLe at hle
-  simp only [Bool.or_eq_false_iff, Bool.and_eq_false_iff, decide_eq_false_iff_not,
-    beq_eq_false_iff_ne] at hle
-  omega
-
-theorem pairwise_zip_fst {R : Nat → Nat → Prop} (np part : List Nat) (h : np.Pairwise R) :
-    (np.zip part).Pairwise (fun x y => R x.1 y.1) := by
+theorem pairwise_zip_fst {β γ : Type} {R : β → β → Prop} (np : List β) (part : List γ)
+    (h : np.Pairwise R) : (np.zip part).Pairwise (fun x y => R x.1 y.1) := by
   induction np generalizing part with
   | nil => simp
   | cons p ps ih =>
@@ -593,39 +577,64 @@ theorem pairwise_zip_fst {R : Nat → Nat → Prop} (np part : List Nat) (h : np
       rintro ⟨q, e⟩ hy
       exact h.1 q (List.of_mem_zip hy).1
 
-/-- a slot of `tensor_merge` computes the specification whenever no two tuples that the sort
-would exchange have the same position -/
-theorem mergeSlot_eq_spec' (arrPart np part : List Nat)
-    (h : (np.zip part).Pairwise (fun x y => mergeLe x y = false → y.1 ≠ x.1))
+/-- the index component makes the sort of `tensor_merge` stable with respect to the order of `ins`
+-/
+theorem filter_stableSort_mergeLe (k : Nat) (np part : List Nat) (n : Nat) :
+    (stableSort mergeLe (np.zip ((List.range n).zip part))).filter (fun z => z.1 == k)
+      = (np.zip ((List.range n).zip part)).filter (fun z => z.1 == k) := by
+  apply filter_stableSort
+  have h1 : ((List.range n).zip part).Pairwise (fun x y => x.1 < y.1) :=
+    pairwise_zip_fst _ _ List.pairwise_lt_range
+  refine (pairwise_zip_snd np _ h1).imp ?_
+  intro x y hxy hle
+  unfold mergeLe at hle
+  simp only [Bool.or_eq_false_iff, Bool.and_eq_false_iff, decide_eq_false_iff_not,
+    beq_eq_false_iff_ne] at hle
+  omega
+
+theorem merge_zip_map (np part : List Nat) (n : Nat) (hn : part.length ≤ n) :
+    (np.zip ((List.range n).zip part)).map (fun x => (x.1, x.2.2)) = np.zip part := by
+  have h : np.zip part = np.zip (((List.range n).zip part).map Prod.snd) := by
+    rw [List.map_snd_zip (by simpa using hn)]
+  rw [h, List.zip_map_right]
+  apply List.map_congr_left
+  rintro ⟨a, b, c⟩ _
+  rfl
+
+/-- one slot of `tensor_merge` computes the specification (any letters) -/
+theorem mergeSlot_eq_spec (arrPart np part : List Nat) (n : Nat) (hn : part.length ≤ n)
     (hadm : ∀ q ∈ np, q ≤ arrPart.length) :
-    insertLoop 0 arrPart (stableSort mergeLe (np.zip part)) = insertSpec 0 arrPart (np.zip part) := by
-  have h1 := insertLoop_eq_spec (stableSort mergeLe (np.zip part)) 0 0 [] arrPart
-    (sorted_stableSort_mergeLe _)
+    insertLoop 0 arrPart (mergeSorted np part n) = insertSpec 0 arrPart (np.zip part) := by
+  unfold mergeSorted
+  have hsorted : SortedPos ((stableSort mergeLe (np.zip ((List.range n).zip part))).map
+      fun x => (x.1, x.2.2)) := by
+    unfold SortedPos
+    rw [List.pairwise_map]
+    exact (pairwise_stableSort mergeLe_total mergeLe_trans _).imp
+      (fun {a b} h => mergeLe_pos a b h)
+  have h1 := insertLoop_eq_spec _ 0 0 [] arrPart hsorted
     (by
       intro x hx
-      have hx' := (stableSort_perm mergeLe _).mem_iff.1 hx
-      obtain ⟨q, c⟩ := x
-      have := hadm q (List.of_mem_zip hx').1
+      rw [List.mem_map] at hx
+      obtain ⟨y, hy, rfl⟩ := hx
+      have hy' := (stableSort_perm mergeLe _).mem_iff.1 hy
+      obtain ⟨q, c⟩ := y
+      have := hadm q (List.of_mem_zip hy').1
       simp only; omega)
     rfl
   simp only [List.nil_append] at h1
   rw [h1]
   apply insertSpec_congr
   intro k
+  rw [← merge_zip_map np part n hn]
+  rw [← map_argsAt (fun x : Nat × Nat => x.2) k, ← map_argsAt (fun x : Nat × Nat => x.2) k]
   unfold argsAt
-  rw [filter_stableSort mergeLe k _ h]
+  rw [filter_stableSort_mergeLe]
 
-theorem mergeSlot_eq_spec (arrPart np part : List Nat)
-    (h : part.Pairwise (fun a b => letterCode a < letterCode b))
-    (hadm : ∀ q ∈ np, q ≤ arrPart.length) :
-    insertLoop 0 arrPart (stableSort mergeLe (np.zip part)) = insertSpec 0 arrPart (np.zip part) := by
-  apply mergeSlot_eq_spec' _ _ _ _ hadm
-  refine (pairwise_zip_snd np part h).imp ?_
-  intro x y hxy hle
-  unfold mergeLe at hle
-  simp only [Bool.or_eq_false_iff, Bool.and_eq_false_iff, decide_eq_false_iff_not,
-    beq_eq_false_iff_ne] at hle
-  omega
+/-- The tie-break of the *previous* version of `tensor_merge`, `sorted(zip(norm_pos, ins_part))`:
+ties by the character code of the letter. -/
+def oldMergeLe (a b : Nat × Nat) : Bool :=
+  decide (a.1 < b.1) || (a.1 == b.1 && decide (letterCode a.2 ≤ letterCode b.2))
 
 theorem insertSlot_eq_spec {α : Type} (chain : List α) (ps : List (Nat × α))
     (hadm : ∀ x ∈ ps, x.1 ≤ chain.length) :
@@ -767,31 +776,22 @@ theorem merge_map_insPart (chain ins : List Nat) (rank r : Nat) (hr : r < rank) 
       rw [Nat.add_comm, Nat.add_mul_mod_self_right]; exact Nat.mod_eq_of_lt h2'
     rw [this]; simp [h2']
 
-theorem merge_codes_increasing (s n : Nat) (h : s + n ≤ 26) :
-    (List.range' s n).Pairwise (fun a b => letterCode a < letterCode b) := by
-  refine (List.pairwise_lt_range' (s := s) (n := n)).imp_of_mem ?_
-  intro a b ha hb hab
-  rw [List.mem_range'_1] at ha hb
-  unfold letterCode
-  rw [if_pos (by omega), if_pos (by omega)]; omega
-
 /-- one slot of `tensor_merge`, interpreted as factor labels -/
-theorem mergeSlot_factors' (chain ins np : List Nat) (rank r : Nat) (hr : r < rank)
+theorem mergeSlot_factors (chain ins np : List Nat) (rank r : Nat) (hr : r < rank)
     (hlet : (ins.length + chain.length) * rank ≤ 52)
-    (hadm : ∀ q ∈ np, q ≤ chain.length)
-    (hord : (np.zip (List.range' (r * ins.length) ins.length)).Pairwise
-      (fun x y => mergeLe x y = false → y.1 ≠ x.1)) :
+    (hadm : ∀ q ∈ np, q ≤ chain.length) :
     (insertLoop 0
       (slice (slice letters (ins.length * rank) ((ins.length + chain.length) * rank))
         (r * chain.length) ((r + 1) * chain.length))
-      (stableSort mergeLe (np.zip
-        (slice (slice letters 0 (ins.length * rank)) (r * ins.length) ((r + 1) * ins.length))))).map
+      (mergeSorted np
+        (slice (slice letters 0 (ins.length * rank)) (r * ins.length) ((r + 1) * ins.length))
+        ins.length)).map
       (mergeLetterFactor chain ins rank) = insertSpec 0 chain (np.zip ins) := by
   have h2 := mul_succ_le hr ins.length
   have h3 : (ins.length + chain.length) * rank = ins.length * rank + chain.length * rank :=
     Nat.add_mul _ _ _
   rw [merge_arrPart_eq _ _ _ _ hr hlet, merge_insPart_eq _ _ _ hr (by omega)]
-  rw [mergeSlot_eq_spec' _ _ _ hord (by simpa using hadm)]
+  rw [mergeSlot_eq_spec _ _ _ _ (by simp) (by simpa using hadm)]
   rw [map_insertSpec, merge_map_arrPart]
   congr 1
   have hz : np.zip ins = np.zip ((List.range' (r * ins.length) ins.length).map
@@ -801,45 +801,26 @@ theorem mergeSlot_factors' (chain ins np : List Nat) (rank r : Nat) (hr : r < ra
   rintro ⟨a, b⟩ _
   rfl
 
-theorem mergeSlot_factors (chain ins np : List Nat) (rank r : Nat) (hr : r < rank)
-    (hlow : ins.length * rank ≤ 26) (hlet : (ins.length + chain.length) * rank ≤ 52)
-    (hadm : ∀ q ∈ np, q ≤ chain.length) :
-    (insertLoop 0
-      (slice (slice letters (ins.length * rank) ((ins.length + chain.length) * rank))
-        (r * chain.length) ((r + 1) * chain.length))
-      (stableSort mergeLe (np.zip
-        (slice (slice letters 0 (ins.length * rank)) (r * ins.length) ((r + 1) * ins.length))))).map
-      (mergeLetterFactor chain ins rank) = insertSpec 0 chain (np.zip ins) := by
-  have h2 := mul_succ_le hr ins.length
-  apply mergeSlot_factors' chain ins np rank r hr hlet hadm
-  refine (pairwise_zip_snd np _ (merge_codes_increasing (r * ins.length) ins.length (by omega))).imp ?_
-  intro x y hxy hle
-  unfold mergeLe at hle
-  simp only [Bool.or_eq_false_iff, Bool.and_eq_false_iff, decide_eq_false_iff_not,
-    beq_eq_false_iff_ne] at hle
-  omega
-
-/-- … and when the normalised positions are pairwise distinct, whatever the letters -/
-theorem mergeSlot_factors_distinct (chain ins np : List Nat) (rank r : Nat) (hr : r < rank)
-    (hlet : (ins.length + chain.length) * rank ≤ 52)
-    (hadm : ∀ q ∈ np, q ≤ chain.length) (hnd : np.Nodup) :
-    (insertLoop 0
-      (slice (slice letters (ins.length * rank) ((ins.length + chain.length) * rank))
-        (r * chain.length) ((r + 1) * chain.length))
-      (stableSort mergeLe (np.zip
-        (slice (slice letters 0 (ins.length * rank)) (r * ins.length) ((r + 1) * ins.length))))).map
-      (mergeLetterFactor chain ins rank) = insertSpec 0 chain (np.zip ins) := by
-  apply mergeSlot_factors' chain ins np rank r hr hlet hadm
-  refine (pairwise_zip_fst (R := fun a b => a ≠ b) np _ hnd).imp ?_
-  intro x y hxy _
-  exact fun h => hxy h.symm
-
 /-! ### `tensor_transpose` -/
 
 theorem perm_range_of_nodup (l : List Nat) (n : Nat) (hn : l.Nodup) (hlt : ∀ x ∈ l, x < n)
     (hlen : l.length = n) : l.Perm (List.range n) :=
   (List.subperm_of_subset hn (fun x hx => List.mem_range.2 (hlt x hx))).perm_of_length_le
     (by simp [hlen])
+
+theorem orderIsRange_iff (order : List Nat) (n : Nat) :
+    orderIsRange order n = true ↔ order.Perm (List.range n) := by
+  unfold orderIsRange
+  rw [beq_iff_eq]
+  constructor
+  · intro h; rw [← h]; exact (stableSort_perm _ order).symm
+  · intro h
+    have hs := pairwise_stableSort (le := fun a b : Nat => decide (a ≤ b))
+      (by intro a b h; simp at h ⊢; omega) (by intro a b c h1 h2; simp at h1 h2 ⊢; omega) order
+    refine List.Perm.eq_of_pairwise (le := fun a b => a ≤ b) ?_ ?_ List.pairwise_le_range
+      ((stableSort_perm _ order).trans h)
+    · intro a b _ _ h1 h2; omega
+    · exact hs.imp (by intro a b h; simpa using h)
 
 theorem transposeAxes_succ (rank n : Nat) (order : List Nat) :
     transposeAxes (rank + 1) n order
